@@ -50,6 +50,37 @@ UNIT = dict(
                  dict(rule="R3", re=r"io::Error::new\(\s*io::ErrorKind::InvalidData,\s*\"[^\"]*\",\s*\)", to="io_invalid_data()", why="io::Error constructor shim"),
                  dict(rule="R3", re=r"io::Result<", to="Result2<", expect=1, why="io::Result<T> = Result<T, io::Error>"),
              ]),
+        dict(kind="fn", file=PC, path="Pcap::new_with_header", ret="r",
+             ensures=[
+                 "(*file is Writer || *file is Stdout) ==> r is Ok",   # model: writes do not fail
+                 "r matches Ok(p) ==> p.header == global_header && p.file == file",
+                 # exactly the 24 bytes of that header are written, to the handle's own stream
+                 "*file is Writer ==> final(writer_st).written() == old(writer_st).written() + ghdr_bytes(global_header) && final(stdout_st).written() == old(stdout_st).written()",
+                 "*file is Stdout ==> final(stdout_st).written() == old(stdout_st).written() + ghdr_bytes(global_header) && final(writer_st).written() == old(writer_st).written()",
+             ], props=["C20", "C19"],
+             rewrites=[
+                 dict(rule="R7", re=r"fn new_with_header\(file: Rc<FileHandle>, global_header: PcapGlobalHeader\)", to="fn new_with_header(file: Rc<FileHandle>, global_header: PcapGlobalHeader, writer_st: &mut OutStream, stdout_st: &mut OutStream)", expect=1, strict=True,
+                      why="interior mutability made explicit: the file writer behind the handle and stdout become &mut output-stream parameters"),
+                 dict(rule="R10", re=r"let bytes: Vec<u8> = \(&global_header\)\.into\(\);", to="let bytes: Vec<u8> = ghdr_to_bytes(&global_header);", expect=1, why="From<&PcapGlobalHeader> for Vec<u8> behind its (Kani-proved) contract"),
+                 dict(rule="R3", re=r"match file\.as_ref\(\) \{", to="match &*file {", expect=1, why="Rc::as_ref -> deref"),
+                 dict(rule="R3", re=r"writer\.borrow_mut\(\)\.write_all\(&bytes\)\?;", to="write_all(writer_st, &bytes)?;", expect=1, why="Write::write_all on the file writer -> output-stream shim"),
+                 dict(rule="R3", re=r"io::stdout\(\)\.write_all\(&bytes\)\?;", to="write_all(stdout_st, &bytes)?;", expect=1, why="Write::write_all on stdout -> output-stream shim"),
+                 dict(rule="R3", re=r"io::Error::new\(\s*io::ErrorKind::InvalidData,\s*\"[^\"]*\",\s*\)", to="io_invalid_data()", why="io::Error constructor shim"),
+                 dict(rule="R3", re=r"io::Result<", to="Result2<", expect=1, why="io::Result<T> = Result<T, io::Error>"),
+             ]),
+        dict(kind="fn", file=PC, path="Pcap::new_like", ret="r",
+             ensures=[
+                 # C20: the output stream's global header is the input's, field by field, and those are the bytes written
+                 "r matches Ok(p) ==> p.header.magic_number == other.header.magic_number && p.header.version_major == other.header.version_major && p.header.version_minor == other.header.version_minor && p.header.thiszone == other.header.thiszone && p.header.sigfigs == other.header.sigfigs && p.header.snaplen == other.header.snaplen && p.header.linktype == other.header.linktype",
+                 "*file is Stdout ==> r is Ok && final(stdout_st).written() == old(stdout_st).written() + ghdr_bytes(other.header)",
+             ], props=["C20"],
+             rewrites=[
+                 dict(rule="R7", re=r"pub fn new_like\(file: Rc<FileHandle>, other: &Pcap\)", to="pub fn new_like(file: Rc<FileHandle>, other: &Pcap, writer_st: &mut OutStream, stdout_st: &mut OutStream)", expect=1, strict=True,
+                      why="output streams made explicit (see new_with_header)"),
+                 dict(rule="R2", re=r"let h = other\.header\.borrow\(\);", to="let h = &other.header;", expect=1, why="RefCell erased"),
+                 dict(rule="R7", re=r"Self::new_with_header\(file, global_header\)", to="Self::new_with_header(file, global_header, writer_st, stdout_st)", expect=1, strict=True, why="output streams threaded through"),
+                 dict(rule="R3", re=r"io::Result<", to="Result2<", expect=1, why="io::Result<T> = Result<T, io::Error>"),
+             ]),
         dict(kind="raw", label="alias", text="pub type Result2<T> = Result<T, IoError>;\n"),
     ],
 )
